@@ -429,7 +429,13 @@ def o_c15(story, recs, report):
                     elif strip_flags(nx["view"]) != strip_flags(b):
                         want, got = strip_flags(b), strip_flags(nx["view"])
                         report("undo-after-fault-not-exact", f"differs in {[kk for kk in want if want[kk] != got[kk]]}", k + 1)
-    # silently discarded statements: detected by the correspondence (the model raises where Python must)
+    for k, r in enumerate(recs[1:], 1):
+        v = r["view"]
+        if v is not None and r["obs"][0] in ("ok", "bool") and (
+                "Python statement failed" in v["raw_content"] or "Error executing Python block" in v["raw_content"]
+                or "in Python block" in v["raw_content"]):
+            report("statement-failure-swallowed",
+                   "a failing statement/block was turned into displayed text instead of raising from choose()", k)
 
 
 ORACLES = {"C02": [o_common, o_c02], "C03": [o_common, o_c03], "C04": [o_common, o_c04], "C07": [o_common, o_c07],
